@@ -136,13 +136,9 @@ def ieModel (m : Model) : Model :=
 
 /-! ## CommonSubexpressionEliminationPass (common_subexpression_elimination.py) — main graph only -/
 
-/-- The value stored in the dictionary key for one attribute is `(type, value)` with floats keyed by
-    their bit pattern, so two keys are equal iff the attribute values are equal — except tensors of
-    strings, whose key is built from object addresses (`numpy().tobytes()` of an object array): they
-    are never found again. -/
-def attrKeyable : AttrData → Bool
-  | .tensor t => t.dtype != 8
-  | _ => true
+/-! The value stored in the dictionary key for one attribute is `(type, value)` with floats keyed by
+their bit pattern, tensors by (shape, dtype, bytes) and string tensors by their strings: two keys are equal
+iff the attribute values are equal. -/
 
 /-- common_subexpression_elimination.py `_is_non_deterministic_op` -/
 def isNonDeterministicOp (op : OpId) : Bool :=
@@ -160,8 +156,7 @@ def cseSkip (limit : Nat) (op : OpId) (attrs : List (String × AttrData)) (bodie
 /-- the dictionary keys (operator id, number of outputs, input identities, attribute values) of two
     nodes are equal -/
 def cseKeyMatch (n1 n : Node) : Bool :=
-  n1.op == n.op && n1.outs.length == n.outs.length && n1.ins == n.ins &&
-  n1.attrs == n.attrs && n.attrs.all (fun p => attrKeyable p.2)
+  n1.op == n.op && n1.outs.length == n.outs.length && n1.ins == n.ins && n1.attrs == n.attrs
 
 def identityNode (x y : VId) : Node := .mk ⟨"", "Identity", ""⟩ [] [some x] [y] []
 
